@@ -142,6 +142,14 @@ def generate(seed_: int, run: int, reactions: list[str], wild_hash_seeds: bool =
                     ops += [{"op": "new", "b": extra, "rx": tag, "copy": True},
                             {"op": "align", "b": extra, "v": rng.choice(["dpd1", "dpd2", "dpd3"])},
                             {"op": "formulate", "b": extra}, {"op": "drop", "b": extra}]
+            elif r < 0.07:
+                # blanket assignment: one builder kind for every resonance, formulated on two builders
+                kind_for_all = rng.choice(dyn)
+                other = rng.choice([b for b in range(n_builders) if slots[b] == slots[slot]])
+                for target in {slot, other}:
+                    for i in range(4):
+                        ops.append({"op": "assign", "b": target, "sel": {"kind": "name", "i": i, "n": 0}, "dyn": kind_for_all})
+                    ops.append(gen_formulate(rng, target, False))
             elif r < 0.12:
                 # directed pattern: the same selection gets builder kind A, then kind B, with a
                 # formulate() after each, on this builder or on another one of the same reaction
